@@ -42,6 +42,8 @@ pub enum Res {
     True,
     False,
     Err,
+    /// a non-blocking iterator ended
+    End,
     Unsupported,
 }
 
@@ -57,6 +59,7 @@ impl Res {
             Res::True => ("True".into(), -1, true),
             Res::False => ("False".into(), -1, true),
             Res::Err => ("Err".into(), -1, true),
+            Res::End => ("End".into(), -1, true),
             Res::Unsupported => ("Unsupported".into(), -1, true),
         }
     }
